@@ -3,6 +3,9 @@ import itertools
 import random
 
 
+ONLY = None
+
+
 def exhaustive(maxcells, mincells=1):
     """Every boolean table of every shape with mincells <= n*m <= maxcells."""
     for n in range(1, maxcells + 1):
@@ -141,6 +144,9 @@ def nontrivial(tab):
 def suite(rng, tier, *, exh_quick=10, exh_thorough=14, rand_quick=400, rand_thorough=15000,
           wide_quick=40, wide_thorough=1000, nmax=9, mmax=9):
     """The shared stream of contexts for lattice-level properties."""
+    if ONLY is not None:      # replay / shrinking: exactly these tables
+        yield from ONLY
+        return
     exh = exh_quick if tier == 'quick' else exh_thorough
     yield from exhaustive(exh)
     yield from structured(rng, 5 if tier == 'quick' else 7)
